@@ -240,3 +240,49 @@ pub open spec fn is_epoch0(e: FifoEntry) -> bool { e matches FifoEntry::WrapArou
 pub open spec fn first_epoch0(s: Seq<FifoEntry>, i: int) -> int decreases s.len() - i {
     if i < 0 || i >= s.len() { s.len() as int } else if is_epoch0(s[i]) { i } else { first_epoch0(s, i + 1) }
 }
+
+// ---- from bytes to entries: the element decoding that Kani proves for the real fifo_entry (harness fifo_word_complete), lifted to
+// ---- the stream by fifo_spec.rs (`entries`: the 4-byte words of the longest prefix, scaler blocks skipped)
+pub open spec fn le24(w: Seq<u8>) -> u32 { (w[0] as u32) | ((w[1] as u32) << 8u32) | ((w[2] as u32) << 16u32) }
+pub open spec fn decode_word(w: Seq<u8>) -> FifoEntry {
+    if w[3] == 0xff {
+        FifoEntry::WrapAroundMarker(WrapAroundMarker { timestamp_top_bit: w[2] & 0x80 == 0x80, counter: le24(w) & 0x007F_FFFF })
+    } else {
+        FifoEntry::TimestampCounter(TimestampCounter { channel: ChannelId(w[3] & 0x7f), timestamp: le24(w) & 0x00FF_FFFE,
+                                                        edge: if w[0] & 1 == 1 { EdgeType::Trailing } else { EdgeType::Leading } })
+    }
+}
+pub open spec fn decoded(s: Seq<u8>) -> Seq<FifoEntry> { entries(s).map_values(|w: Seq<u8>| decode_word(w)) }
+pub proof fn lemma_word_wf(w: Seq<u8>)
+    requires w.len() == 4
+    ensures entry_wf(decode_word(w))
+{
+    let (a, b, c) = (w[0], w[1], w[2]);
+    assert((((a as u32) | ((b as u32) << 8u32) | ((c as u32) << 16u32)) & 0x007F_FFFF) < 0x800000) by (bit_vector);
+    assert((((a as u32) | ((b as u32) << 8u32) | ((c as u32) << 16u32)) & 0x00FF_FFFE) < 0x1000000) by (bit_vector);
+    assert(((((a as u32) | ((b as u32) << 8u32) | ((c as u32) << 16u32)) & 0x00FF_FFFE) & 1) == 0) by (bit_vector);
+}
+pub proof fn lemma_entries_are_words(s: Seq<u8>)
+    ensures forall|i: int| 0 <= i < entries(s).len() ==> (#[trigger] entries(s)[i]).len() == 4
+    decreases s.len()
+{
+    if is_entry(s) {
+        lemma_entries_are_words(s.skip(4));
+        let head = seq![s.subrange(0, 4)];
+        let tail = entries(s.skip(4));
+        assert(entries(s) == head + tail);
+        assert forall|i: int| 0 <= i < entries(s).len() implies (#[trigger] entries(s)[i]).len() == 4 by {
+            if i == 0 { assert(entries(s)[0] == s.subrange(0, 4)); } else { assert(entries(s)[i] == tail[i - 1]); }
+        }
+    }
+    else if is_block(s) { lemma_entries_are_words(s.skip(244)); assert(entries(s) == entries(s.skip(244))); }
+    else { assert(entries(s) == Seq::<Seq<u8>>::empty()); }
+}
+pub proof fn lemma_decoded_wf(s: Seq<u8>)
+    ensures forall|i: int| 0 <= i < decoded(s).len() ==> entry_wf(#[trigger] decoded(s)[i])
+{
+    lemma_entries_are_words(s);
+    assert forall|i: int| 0 <= i < decoded(s).len() implies entry_wf(#[trigger] decoded(s)[i]) by {
+        lemma_word_wf(entries(s)[i]);
+    }
+}
